@@ -1,5 +1,7 @@
 import NimaVerif.Lemmas.NameAgree
 import NimaVerif.Lemmas.EditKeeps
+import NimaVerif.Lemmas.CliEdit
+import NimaVerif.Gen.Cli
 /-!
 # C08 — a rejected edit is loud and leaves the document exactly as it was
 
@@ -318,6 +320,95 @@ example : (runOps [.rm "zz".toList, .set "x".toList (.one (.atom "7".toList)),
     .set "x.y".toList (.one (.atom "3".toList)), .rm "a.b".toList, .rm "x.y".toList] exDoc).map (·.1) =
     [.error .key, .ok (), .error .value, .ok (), .error .value] := rfl
 
+/-! ## (e) through the command line
+
+`nima set` / `nima rm` over the edit model (`Cli.editLib`, `Lemmas/CliEdit.lean`: any library whose
+edit entry points are the modelled ones — for ANY comparison of name tokens `inst`, so also for the
+code as it is, `NameCmp.model` —, any `parse`, any reading of VALUE, any rendering). The programs
+the interpreter runs are re-extracted from `cli/main.py` (`tie_cli_set`, `tie_cli_rm`). -/
+section CommandLine
+open Cli
+variable {σ : Type}
+
+theorem tie_cli_set : Gen.cliSet = some Cli.setProg := by decide
+theorem tie_cli_rm : Gen.cliRm = some Cli.rmProg := by decide
+
+/-- A `set` the library rejects: not one byte on stdout, exit status 1, the exception of the
+    library on stderr — for every document, path, value and channel. -/
+theorem cli_rejected_set_silent (inst : NameCmp) (base : Lib σ) (docOf : σ → Doc)
+    (classify : Text → ValueArg) (render : Doc → Except Err Text) (inv : Inv) (t : Text) (s : σ)
+    (e : Err) (d' : Doc) (hc : inv.content = .ok t) (hp : base.parse t = .ok s)
+    (h : @setValue inst inv.npath (classify inv.value) (docOf s) = (.error e, d')) :
+    cli (@editLib σ inst base docOf classify render) .set inv = tracebackRes e := by
+  rw [@cli_set_model σ inst base docOf classify render inv t s hc hp, h]
+  rfl
+
+theorem cli_rejected_rm_silent (inst : NameCmp) (base : Lib σ) (docOf : σ → Doc)
+    (classify : Text → ValueArg) (render : Doc → Except Err Text) (inv : Inv) (t : Text) (s : σ)
+    (e : Err) (d' : Doc) (hc : inv.content = .ok t) (hp : base.parse t = .ok s)
+    (h : @removeValue inst inv.npath (docOf s) = (.error e, d')) :
+    cli (@editLib σ inst base docOf classify render) .rm inv = tracebackRes e := by
+  rw [@cli_rm_model σ inst base docOf classify render inv t s hc hp, h]
+  rfl
+
+/-- Exit status 0 exactly when the library accepted the edit and the edited document rendered:
+    a rejection can never look like a success from the shell. -/
+theorem cli_set_exit_zero_iff (inst : NameCmp) (base : Lib σ) (docOf : σ → Doc)
+    (classify : Text → ValueArg) (render : Doc → Except Err Text) (inv : Inv) (t : Text) (s : σ)
+    (hc : inv.content = .ok t) (hp : base.parse t = .ok s) :
+    (cli (@editLib σ inst base docOf classify render) .set inv).exit = 0 ↔
+      ∃ u d' text, @setValue inst inv.npath (classify inv.value) (docOf s) = (.ok u, d') ∧
+        render d' = .ok text := by
+  rw [@cli_set_model σ inst base docOf classify render inv t s hc hp]
+  rcases hm : @setValue inst inv.npath (classify inv.value) (docOf s) with ⟨r, d'⟩
+  cases r with
+  | error e => simp [shown, tracebackRes]
+  | ok u => cases hr : render d' <;> simp [shown, tracebackRes, hr]
+
+theorem cli_rm_exit_zero_iff (inst : NameCmp) (base : Lib σ) (docOf : σ → Doc)
+    (classify : Text → ValueArg) (render : Doc → Except Err Text) (inv : Inv) (t : Text) (s : σ)
+    (hc : inv.content = .ok t) (hp : base.parse t = .ok s) :
+    (cli (@editLib σ inst base docOf classify render) .rm inv).exit = 0 ↔
+      ∃ u d' text, @removeValue inst inv.npath (docOf s) = (.ok u, d') ∧ render d' = .ok text := by
+  rw [@cli_rm_model σ inst base docOf classify render inv t s hc hp]
+  rcases hm : @removeValue inst inv.npath (docOf s) with ⟨r, d'⟩
+  cases r with
+  | error e => simp [shown, tracebackRes]
+  | ok u => cases hr : render d' <;> simp [shown, tracebackRes, hr]
+
+/-- What stderr names for a rejected `set` on a well-formed document whose target resolves:
+    KeyError or ValueError, nothing else (names compared by spelling; `_repaired` below). -/
+theorem cli_rejected_set_class (base : Lib σ) (docOf : σ → Doc)
+    (classify : Text → ValueArg) (render : Doc → Except Err Text) (inv : Inv) (t : Text) (s : σ)
+    (e : Err) (d' : Doc) (hc : inv.content = .ok t) (hp : base.parse t = .ok s)
+    (hwf : WF (docOf s)) (hres : (docOf s).noTarget ≠ some .resolution)
+    (h : setValue inv.npath (classify inv.value) (docOf s) = (.error e, d')) :
+    cli (editLib base docOf classify render) .set inv = tracebackRes .key ∨
+    cli (editLib base docOf classify render) .set inv = tracebackRes .value := by
+  rw [cli_rejected_set_silent NameCmp.spelled base docOf classify render inv t s e d' hc hp h]
+  rcases error_class_partial _ _ _ e d' hwf hres h with h1 | h1 <;> rw [h1]
+  · exact Or.inl rfl
+  · exact Or.inr rfl
+
+theorem cli_rejected_rm_class (base : Lib σ) (docOf : σ → Doc)
+    (classify : Text → ValueArg) (render : Doc → Except Err Text) (inv : Inv) (t : Text) (s : σ)
+    (e : Err) (d' : Doc) (hc : inv.content = .ok t) (hp : base.parse t = .ok s)
+    (hwf : WF (docOf s)) (hres : (docOf s).noTarget ≠ some .resolution)
+    (h : removeValue inv.npath (docOf s) = (.error e, d')) :
+    cli (editLib base docOf classify render) .rm inv = tracebackRes .key ∨
+    cli (editLib base docOf classify render) .rm inv = tracebackRes .value := by
+  rw [cli_rejected_rm_silent NameCmp.spelled base docOf classify render inv t s e d' hc hp h]
+  rcases rm_error_class_partial _ _ e d' hwf hres h with h1 | h1 <;> rw [h1]
+  · exact Or.inl rfl
+  · exact Or.inr rfl
+
+/-- Non-vacuity: `nima rm zz` on `{ b = 1; }` in the model — KeyError, silence, status 1. -/
+example : cli (editLib (σ := Unit) ⟨fun _ => .ok (), fun _ => false, fun _ => .ok [], fun _ _ _ => .ok [],
+      fun _ _ => .ok []⟩ (fun _ => exDoc) (fun _ => .one (.atom ['1'])) (fun _ => .ok []))
+    .rm { chan := .stdin, raw := .ok [], npath := ['z', 'z'] } = tracebackRes .key := by decide
+
+end CommandLine
+
 /-! ## For the repaired code (`NameCmp.model`, i.e. lookups through `_same_attr_name`)
 
 Everything above is stated for the name comparison by spelling (`NameCmp.spelled`, declared at the head
@@ -370,5 +461,31 @@ theorem rm_error_class_partial_repaired (d : Doc) (p : Text) (e : Err) (d' : Doc
     (hns : NameAgree.noSpellingClash d p) : e = .key ∨ e = .value := by
   simp only [NameAgree.setValue_model_eq_spelled p _ d hns, NameAgree.removeValue_model_eq_spelled p d hns] at *
   exact rm_error_class_partial d p e d' hwf hres h
+
+theorem cli_rejected_set_class_repaired {σ : Type} (base : Cli.Lib σ) (docOf : σ → Doc)
+    (classify : Text → ValueArg) (render : Doc → Except Err Text) (inv : Cli.Inv) (t : Text) (s : σ)
+    (e : Err) (d' : Doc) (hc : inv.content = .ok t) (hp : base.parse t = .ok s)
+    (hwf : WF (docOf s)) (hres : (docOf s).noTarget ≠ some .resolution)
+    (h : @setValue NameCmp.model inv.npath (classify inv.value) (docOf s) = (.error e, d'))
+    (hns : NameAgree.noSpellingClash (docOf s) inv.npath) :
+    Cli.cli (@Cli.editLib σ NameCmp.model base docOf classify render) .set inv = Cli.tracebackRes .key ∨
+    Cli.cli (@Cli.editLib σ NameCmp.model base docOf classify render) .set inv = Cli.tracebackRes .value := by
+  rw [cli_rejected_set_silent NameCmp.model base docOf classify render inv t s e d' hc hp h]
+  rcases error_class_partial_repaired _ _ _ e d' hwf hres h hns with h1 | h1 <;> rw [h1]
+  · exact Or.inl rfl
+  · exact Or.inr rfl
+
+theorem cli_rejected_rm_class_repaired {σ : Type} (base : Cli.Lib σ) (docOf : σ → Doc)
+    (classify : Text → ValueArg) (render : Doc → Except Err Text) (inv : Cli.Inv) (t : Text) (s : σ)
+    (e : Err) (d' : Doc) (hc : inv.content = .ok t) (hp : base.parse t = .ok s)
+    (hwf : WF (docOf s)) (hres : (docOf s).noTarget ≠ some .resolution)
+    (h : @removeValue NameCmp.model inv.npath (docOf s) = (.error e, d'))
+    (hns : NameAgree.noSpellingClash (docOf s) inv.npath) :
+    Cli.cli (@Cli.editLib σ NameCmp.model base docOf classify render) .rm inv = Cli.tracebackRes .key ∨
+    Cli.cli (@Cli.editLib σ NameCmp.model base docOf classify render) .rm inv = Cli.tracebackRes .value := by
+  rw [cli_rejected_rm_silent NameCmp.model base docOf classify render inv t s e d' hc hp h]
+  rcases rm_error_class_partial_repaired _ _ e d' hwf hres h hns with h1 | h1 <;> rw [h1]
+  · exact Or.inl rfl
+  · exact Or.inr rfl
 
 end Nima.C08
